@@ -31,6 +31,11 @@ def plan(tier, ctx):
     for (n, ao) in fixed:
         qs.append(P.fixed_query("C06", n, ao, False, core=False, witness=(not quick and (n, ao) == (2, 3)),
                                 timeout=(600 if quick else 2400), mem_gb=(None if quick else 24)))
+    # (e) (lead) engine C: the ASSEMBLY decoders decode_huffman_code_block_stateless_01/_04, lifted to C at check time
+    #     (vlib/x86lift.py), under the same oracle.  Measured (loaded machine): n=1, ao=3: 317 s, 5.9 M variables, 6 GB.
+    asm = [("04", 1, 0, 3)] if quick else [(v, 1, 0, ao) for v in ("04", "01") for ao in (0, 3, 8)]
+    for (v, n, pad, ao) in asm:
+        qs.append(P.asmdec_query(v, n, pad, ao, False, unwind=4, timeout=(900 if quick else 2400), mem_gb=16, witness=(not quick and v == "04" and ao == 3)))
     return Plan("C06", "model_checking", qs,
                 functions_encoded=P.FUNCS, bounds=P.bounds(False), stubs=P.STUBS,
                 assumptions=P.ASSUMPTIONS + ["flavour: arbitrary bytes (no validity assumption)"],
